@@ -25,7 +25,7 @@ RULE = ('docstrings from a markup-fragment fuzzer (epytext/reST/google/numpy fra
         'the control function must render as in a clean system. Distinct: (string, docformat, process-types); non-trivial: '
         'the string is not plain words.')
 ASSUME = ['BROKEN placeholders are legal only for summary, toc and field bodies', 'CPU budget overruns are confirmed alone with a 4x budget before being reported']
-DECIDING = {'inherited_renderings': 500, 'inherited_fallbacks_observed': 100, 'renderings': 20000, 'fallbacks_observed': 300, 'recoverable_errors_observed': 300, 'control_comparisons': 2000, 'docformats': 5}
+DECIDING = {'inherited_renderings': 500, 'inherited_fallbacks_observed': 100, 'renderings': 20000, 'fallbacks_observed': 300, 'recoverable_errors_observed': 300, 'control_comparisons': 2000, 'docformats': 5, 'owner_comparisons': 40}
 CPU_S = 900
 HANG_IS_VIOLATION = True
 FORMATS = ['epytext', 'restructuredtext', 'google', 'numpy', 'plaintext']
@@ -68,7 +68,7 @@ TARGETS = {'mod': 'fz', 'cls': 'fz.K', 'meth': 'fz.K.meth', 'prop': 'fz.K.prop',
 def cases(tier: str, seed: int) -> List[Dict[str, Any]]:
     n = 4000 if tier == 'quick' else 150000
     # a batch takes a few CPU seconds; one that takes minutes is re-run alone with four times the budget before it counts as a hang
-    return [{'seed': seed, 'k': k, 'n': PER, 'cpu_s': 150} for k in range(0, n, PER)]
+    return [{'seed': seed, 'k': k, 'n': PER, 'cpu_s': 150} for k in range(0, n, PER)] + [{'part': 'O', 'cpu_s': 150}]
 
 
 # ---- M-DOC --------------------------------------------------------------------------------------------
@@ -376,8 +376,59 @@ def _plain_docutils_problems(text: str) -> List[str]:
     return [m for m in found if any(k in m for k in STRUCTURAL)]
 
 
+# ---- a failing field body must not harm the docstring it is part of --------------------------------------------------------------
+# An attribute documented by a field of its owner's docstring is rendered *before* the owner (any page that lists the attribute's
+# summary does that): whatever happens to the field body, the owner must then render as it does in a system where the attribute
+# was never asked for.
+OWNER_DOCS = {
+    'epytext': 'Owner with I{{markup}} and C{{code}}.\n\nSecond paragraph.\n\n@ivar fv: {body}\n@ivar ok: fine\n@note: a note\n',
+    'restructuredtext': 'Owner with *markup* and ``code``.\n\nSecond paragraph.\n\n:ivar fv: {body}\n:ivar ok: fine\n:note: a note\n',
+    'google': 'Owner with *markup* and ``code``.\n\nSecond paragraph.\n\nAttributes:\n    fv: {body}\n    ok: fine\n\nNote:\n    a note\n',
+    'numpy': 'Owner with *markup* and ``code``.\n\nSecond paragraph.\n\nAttributes\n----------\nfv\n    {body}\nok\n    fine\n\nNotes\n-----\na note\n',
+}
+FIELD_BODIES = ['x\xa0y', 'x\x0c y', 'plain words', 'a \ufffe b', 'L{nosuch} `nosuch`', 'x\xa0y\n    more\xa0text']
+
+
+def _run_owner(res: core.Res) -> None:
+    from pydoctor import model
+    from pydoctor.options import Options
+    for fmt, tmpl in OWNER_DOCS.items():
+        for body in FIELD_BODIES:
+            for kind in ('class', 'module'):
+                doc = tmpl.format(body=body)
+                src = f'class Owner:\n    {doc!r}\n    def m(self): pass\n' if kind == 'class' else f'{doc!r}\ndef m(): pass\n'
+                outs = []
+                for first in (True, False):
+                    opts = Options.from_args([f'--docformat={fmt}'])
+                    opts.verbosity = -10
+                    system = model.System(opts)
+                    b = system.systemBuilder(system)
+                    b.addModuleString(src, 'ow')
+                    b.buildModules()
+                    owner = system.allobjects['ow.Owner' if kind == 'class' else 'ow']
+                    attr = owner.contents.get('fv')
+                    if attr is None:
+                        res.c('owner_field_not_extracted')      # the layout of this body does not make a field in this markup: nothing to compare
+                        break
+                    _ORDER[0] = 0
+                    if first:
+                        _render(attr)
+                    o, err = _render(owner)
+                    outs.append(repr((o, None if err is None else (err[0], repr(err[1])))))
+                res.c('owner_comparisons')
+                if len(outs) == 2 and outs[0] != outs[1]:
+                    res.v('C08:owner-affected-by-its-field', f'{fmt} {kind} docstring {doc[:80]!r}: rendered after its attribute fv it shows {outs[0][:300]}, rendered alone {outs[1][:300]}',
+                          docformat=fmt, docstring=doc)
+    res.c('evaluations')
+    res.distinct('owner-fields')
+
+
 def run_case(case: Dict[str, Any]) -> core.Res:
     res = core.Res()
+    if case.get('part') == 'O':
+        _run_owner(res)
+        res.sample({'part': 'owner docstrings whose field bodies fail'})
+        return res
     r = core.rng('C08', case['seed'], case['k'])
     for j in range(case['n']):
         s = docfuzz.fuzz(r)
